@@ -67,7 +67,8 @@ class ParseMCNPCell:
 
     def check_cell_parameter_cards(self):
         '''Refuse the cell parameters that are given as data cards (one entry
-        per cell) and that the conversion would otherwise silently ignore.'''
+        per cell), and the READ card, which the conversion would otherwise
+        silently ignore.'''
         for card in self.mcnp_parser.cards(blocks='d', skipcomments=True):
             mnemonic = card.parts()[1].split()
             if not mnemonic:
@@ -77,6 +78,12 @@ class ParseMCNPCell:
                 msg = (f'{name.upper()} data cards are not supported yet; '
                        f'please use the {name.upper()} keyword on the cell '
                        'cards instead')
+                raise NotImplementedError(msg)
+            if name == 'read':
+                # the cards of the auxiliary file (typically the materials)
+                # would be missing from the conversion
+                msg = ('READ cards are not supported yet; please insert the '
+                       'contents of the auxiliary file in the input file')
                 raise NotImplementedError(msg)
 
     def parse_importance_cards(self):
